@@ -41,6 +41,10 @@ CHECKS = {
                 text='auth_check and everything above the serde seam executed from the MIR of ruma-state-res on a symbolic world (room version 1..11, create / power-levels / join-rules / member state by role, incoming member / message / state / aliases / redaction / third-party-invite / power-levels event with absent / well-typed / malformed fields); z3 decides accepted<=>the authorization rules of the specification (spec/auth_rules.py) and panic-freedom per family and version; counterexamples are concretised to PDUs and replayed through ruma_state_res::event_auth::auth_check',
                 note='trusted: MIR dump, library models, the serde seam (from_raw_json_value / RoomPowerLevelsEvent accessors modelled as absent/ok/malformed fields), the transcription of the rules in spec/auth_rules.py; users of the family @<a-d>:<x-y>; rule 9 decided compositionally (call-site family + unit family with one changed property at a time); signature checks of third-party invites and the restricted-join authoriser signature are not part of auth_check',
                 ref='DESIGN.md §4 C08'),
+    'C11': dict(engine='mirsym', technique=MIRSYM,
+                text='MatrixId (the identifier part of matrix.to / matrix: URIs): parse_with_sigil never panics on any UTF-8 text <= 12 bytes; to_string_with_sigil followed by parse_with_sigil is the identity for the Room, RoomAlias and User variants over every identifier the grammar admits (<= 6 bytes quick), i.e. the percent-encoding set covers every byte that the parser treats specially at that level; identifier validators abstracted to content predicates refined against the native validators',
+                note='narrow partial claim (DESIGN §8.6): the event variants, the `type` style (parse_with_type / to_string_with_type), MatrixToUri::parse / MatrixUri::parse as wholes (query splitting, url::Url), via / action arguments are NOT decided - the harnesses for them exist (VERIF_C11_ALL=1) but hit the solver cap or did not finish; the three seeded changes for C11 fall outside this scope and are not detected',
+                ref='DESIGN.md §4 C11, §8.6'),
     'C12': dict(engine='mirsym', technique=MIRSYM,
                 text='compositional: (D) Ruleset::get_match executed from MIR on a symbolic ruleset with rules of all five kinds (symbolic enabled flags; condition and matcher verdicts arbitrary) - z3 decides that the first enabled rule whose conditions hold is returned, in the order override, content, room, sender, underride, nothing for own events, and which value/mode each kind hands to the matcher; (P) PushCondition::applies for event_match, room_member_count, sender_notification_permission, event_property_is, event_property_contains on a symbolic flattened event and room context against the specification; (W) matches_word for literal patterns on all printable-ASCII values <= 6 bytes / patterns <= 2 bytes against the word-boundary definition',
                 note='partial claim: the glob engine (wildmatch) and the regex generated for wildcard word patterns are library code (abstracted to arbitrary verdicts), FlattenedJson::from_raw (serde_json) is below the seam, non-ASCII text is outside; BTreeMap/IndexSet are library models',
@@ -62,7 +66,7 @@ CHECKS = {
                 note='partial claim (DESIGN §4 C16): only path selection; the macro-generated HTTP conversions, URL percent-encoding and XMatrix are outside; tracing modelled as disabled',
                 ref='DESIGN.md §4 C16'),
     'C17': dict(engine='mirsym', also_kani=True, technique='symbolic execution of rustc MIR + SMT (z3) for the string / byte scanners; Kani/CBMC for the DER rewrite; bounded; native replay',
-                text='no-panic for the ruma-owned scanners of untrusted input: mxc_uri / key_id validators (every UTF-8 string <= 300 bytes), MatrixId::parse_with_sigil (<= 12 bytes), ContentDisposition::try_from(&[u8]) (every byte string <= 4 bytes quick / 5 thorough), push word matching on UTF-8 text with multi-byte characters (value <= 6, literal pattern <= 4 bytes; 7 / 4 thorough), the ring-compat PKCS#8 rewrite of Ed25519KeyPair::from_der (Kani, every byte string <= 8 bytes); ruleset edits are decided by C13',
+                text='no-panic for the ruma-owned scanners of untrusted input: mxc_uri / key_id validators (every UTF-8 string <= 300 bytes), MatrixId::parse_with_sigil (<= 12 bytes), ContentDisposition::try_from(&[u8]) (every byte string <= 4 bytes quick / 5 thorough), push word matching on UTF-8 text with multi-byte characters (value <= 6, literal pattern <= 4 bytes; 7 / 4 thorough), the ring-compat PKCS#8 rewrite of Ed25519KeyPair::from_der (MIR: every byte string <= 300 bytes, so the one-byte DER length arithmetic is inside the bound; Kani on the compiled code: <= 8 bytes); ruleset edits are decided by C13',
                 note='partial claim (DESIGN §4 C17): serde_json / serde-derive deserialization, html5ever, http_auth (XMatrix), url::Url are third-party and outside; no claim on stack depth, termination or cross-call effects',
                 ref='DESIGN.md §4 C17'),
     'C19': dict(engine='mirsym', technique=MIRSYM,
@@ -75,7 +79,6 @@ CHECKS = {
                 ref='DESIGN.md §4 C20'),
 }
 NA = {
-    'C11': 'a solver-based check exists (checks/c11.py: MatrixId round trips and parse_with_sigil decide in minutes and found two defects that are fixed), but MatrixId::parse_with_type and MatrixToUri::parse - which rebuild their input with format! at symbolic offsets - did not finish within 25 minutes at 12 bytes, and url::Url (matrix: URIs) is third-party; not claimed rather than claimed with half of the entry points (DESIGN §8.6)',
     'C14': 'depends on html5ever\'s tokenizer/tree builder/serializer (third-party state machines over Rc<RefCell> DOM); not encodable with Kani or the MIR executor (DESIGN §4 C14)',
     'C15': 'same dependency on html5ever parse/serialize round trips as C14 (DESIGN §4 C15)',
     'C18': 'serde-derive / event_enum! generated (de)serialization driving serde_json\'s parser: third-party visitor plumbing, Kani ICEs/explodes, no ruma-owned kernel to encode (DESIGN §4 C18)',
